@@ -25,6 +25,12 @@
 #endif
 #include "c04_builder.h"
 #include "ext_seam.h"
+/* secondary witness points are only compiled in the thorough tier (-DWITNESS_ALL): every witness costs a solver call plus a full trace */
+#ifdef WITNESS_ALL
+#define WITNESS_EXTRA(msg) WITNESS_POINT(msg)
+#else
+#define WITNESS_EXTRA(msg) ((void)0)
+#endif
 
 #define IS(res_, r_, rc_, ec_) ((res_) == KSI_OK && (r_).resultCode == (rc_) && (r_).errorCode == (ec_))
 #define IS_ERR(res_, r_) ((res_) != KSI_OK && (r_).resultCode == KSI_VER_RES_NA)
@@ -82,7 +88,7 @@ void harness(void) {
 	else if (has_pub) {
 		CHECK(IS(res, r, KSI_VER_RES_OK, KSI_VER_ERR_NONE), "C04.Hpubfile the signature's publication (time and hash) found in the file: OK");
 #if C04_NPUB > 0 && SB_PUBALG == C04_PF_ALG0
-		WITNESS_POINT("publication found in the file");
+		WITNESS_EXTRA("publication found in the file");
 #endif
 	} else if (has_time) {
 		CHECK(IS(res, r, KSI_VER_RES_FAIL, KSI_VER_ERR_PUB_5), "C04.Hpubfile the file has another hash for the signature's publication time: FAIL PUB-05");
@@ -109,13 +115,13 @@ void harness(void) {
 	if (fetch != KSI_OK) {
 		FETCH_FAILED_CHECKS("ContainsSuitablePublication");
 #if !C04_PF_USER
-		if (fatal(fetch)) WITNESS_POINT("fatal download failure");
+		if (fatal(fetch)) WITNESS_EXTRA("fatal download failure");
 		if (!fatal(fetch) && VERIF_ext.pubfile_res == KSI_OK) WITNESS_POINT("downloaded file fails PKI verification");
 #endif
 	} else if (suitable) {
 		CHECK(IS(res, r, KSI_VER_RES_OK, KSI_VER_ERR_NONE), "C04.Hpubfile a publication at or after the signing time exists: OK");
 #if C04_NPUB > 0
-		if (C4.pf[C04_NPUB - 1].time == signing) WITNESS_POINT("publication exactly at the signing time is suitable");
+		if (C4.pf[C04_NPUB - 1].time == signing) WITNESS_EXTRA("publication exactly at the signing time is suitable");
 #endif
 	} else {
 		CHECK(res == KSI_OK && r.resultCode == KSI_VER_RES_NA, "C04.Hpubfile no publication at or after the signing time: NA");
